@@ -429,6 +429,15 @@ package s3db
 //@   ensures imp(err == nil, result0 != nil && fresh(result0) && result0.Root != nil && fresh(result0.Root) && dbOK(result0.Root) && result0.Root.readonly == s3opts.ReadOnly)
 //@   ensures imp(err != nil, result0 == nil)
 //@   ensures imp(inMemoryS3 != nil, inMemoryS3.Client != nil)
+//@   at call:kv.Open assert open-options-passed-on: arg3.ReadOnly == old(s3opts.ReadOnly) && arg3.OnlyVersions == old(s3opts.OnlyVersions)
+//@   at call:kv.Open assert the-named-bucket-and-endpoint-are-used: arg2.Storage != nil && imp(old(s3opts.Bucket) != "", arg2.Storage.BucketName == old(s3opts.Bucket) && arg2.Storage.EndpointURL == old(s3opts.Endpoint))
+//@   at call:kv.Open assert unnamed-bucket-is-the-in-memory-one: imp(old(s3opts.Bucket) == "", inMemoryS3 != nil && arg2.Storage.BucketName == inMemoryBucket)
+//@   at call:kv.Open assert entries-per-node-honoured: imp(old(s3opts.EntriesPerNode) > 0, int(arg2.BranchFactor) == old(s3opts.EntriesPerNode)) && imp(old(s3opts.EntriesPerNode) <= 0, int(arg2.BranchFactor) == 0)
+//@   at call:kv.Open assert registered-types: arg2.UnmarshalUsesRegisteredTypes
+//@   at call:kv.Open assert no-node-cache-unless-asked: imp(old(s3opts.NodeCacheEntries) <= 0, arg2.NodeCache == nil)
+//@   at call:s3db.getS3 assert client-only-for-a-named-bucket: old(s3opts.Bucket) != "" && arg0 == old(s3opts.Endpoint)
+//@   at call:fmt.Errorf assert endpoint-without-bucket-rejected: old(s3opts.Bucket) == "" && old(s3opts.Endpoint) != ""
+//@   ensures endpoint-without-bucket-is-an-error: imp(old(s3opts.Bucket) == "" && old(s3opts.Endpoint) != "", err != nil)
 
 // convertSchema translates a parsed columns specification (the schema itself
 // comes out of the combinator parser, outside the verified subset: parseSchema's
